@@ -60,6 +60,7 @@ Init ==
   \/ "meta" \in Fams /\ x = [k |-> "meta", n |-> 0, v |-> Meta0]
   \/ "tok" \in Fams /\ x = [k |-> "tok", n |-> 0, v |-> Tok0]
   \/ "roles" \in Fams /\ x = [k |-> "roles", v |-> <<>>]
+  \/ "bld" \in Fams /\ x = [k |-> "bld", st |-> B0, n |-> 0, last |-> "new"]
 
 \* --------------------------------------------------------------------- Next
 NextStr == x.k = "str" /\ Len(x.s) < MaxLen /\ \E c \in Alpha : x' = [x EXCEPT !.s = Append(@, c)]
@@ -91,7 +92,21 @@ NextTok ==
      \/ x.n = 4 /\ \E b \in B2 : x' = [x EXCEPT !.n = 5, !.v.reserved = b]
 NextRoles == x.k = "roles" /\ Len(x.v) < 3 /\ \E r \in RoleS : x' = [x EXCEPT !.v = Append(@, r)]
 
-Next == NextStr \/ NextArgs \/ NextXf \/ NextAmt \/ NextMeta \/ NextTok \/ NextRoles
+\* the builder object under every sequence of MaxLen operations of a small operation alphabet (names with and without '@',
+\* every appending method, raw texts through SetLast incl. odd-length / non-hex / separator, Clear, the ESDT conveniences)
+BldOps ==
+  {[op |-> "func", f |-> f] : f \in {<<>>, <<CLetter>>, <<CLetter, AT>>, FnESDTTransfer}}
+  \cup {[op |-> "elem", e |-> e] : e \in {[t |-> "bytes", b |-> <<>>], [t |-> "bytes", b |-> <<0, 255>>], [t |-> "byte", n |-> 0], [t |-> "byte", n |-> 10],
+                                          [t |-> "int", n |-> 0], [t |-> "int", n |-> 0 - 256], [t |-> "int64", n |-> 65535], [t |-> "big", b |-> <<0, 1>>],
+                                          [t |-> "str", b |-> <<AT>>], [t |-> "bool", n |-> 1]}}
+  \cup {[op |-> "setlast", s |-> t] : t \in {<<>>, <<CLower, CDigit>>, <<CUpper, CUpper>>, <<CDigit>>, <<CLetter, CLetter>>, <<AT>>}}
+  \cup {[op |-> "clear"], [op |-> "true"], [op |-> "false"]}
+  \cup {[op |-> "issue", tok |-> <<CLetter>>, tick |-> <<>>, sup |-> 256, dec |-> 0], [op |-> "xfer", tok |-> <<CLetter>>, val |-> 0],
+        [op |-> "xfernft", tok |-> <<CLetter>>, nonce |-> 1, val |-> 1], [op |-> "burn", tok |-> <<>>, val |-> 255]}
+  \cup {[op |-> "can", w |-> w, v |-> v] : w \in {"canFreeze", "canAddSpecialRoles"}, v \in {0, 1}}
+NextBld == x.k = "bld" /\ x.n < MaxLen /\ \E o \in BldOps : x' = [x EXCEPT !.st = BOp(x.st, o), !.n = @ + 1, !.last = o.op]
+
+Next == NextBld \/ NextStr \/ NextArgs \/ NextXf \/ NextAmt \/ NextMeta \/ NextTok \/ NextRoles
 Spec == Init /\ [][Next]_x
 
 \* --------------------------------------------------------------------- laws
@@ -167,6 +182,18 @@ InvTok == x.k = "tok" => /\ IsToken(x.v)
                          /\ \E i \in 1..Len(Fields(EncToken(x.v)).fs) : Fields(EncToken(x.v)).fs[i].num = 2     \* the Value field is always there
 InvRoles == x.k = "roles" => /\ DecRoles(EncRoles(x.v)) = Val(x.v)
                              /\ Len(EncRoles(x.v)) = SizeRoles(x.v)
+
+\* builder: in every reachable state of the object the string it produces parses back to its function and arguments whenever the
+\* grammar can represent them (and to SOMETHING or an error otherwise); the string is what Build makes of the meaning when every
+\* element text is lower-case; Clear brings the fresh builder back; the last element is the last token of the string
+BldLaws(st) ==
+  LET s == BToString(st) IN
+  /\ Total(ParseCall(s))
+  /\ BRepresentable(st) => ParseCall(s) = Val(BMeaning(st))
+  /\ (BRepresentable(st) /\ \A i \in 1..Len(st.es) : LowerAll(st.es[i]) = st.es[i]) => Build(st.fn, BMeaning(st).args) = s
+  /\ (st.es # <<>> /\ \A i \in 1..Len(BLast(st)) : BLast(st)[i] # AT) => LET toks == Split(s) IN toks[Len(toks)] = BLast(st)
+InvBld == x.k = "bld" => /\ BldLaws(x.st)
+                         /\ x.last = "clear" => x.st = B0
 
 \* varints agree with their digit-string form on TLC-sized numbers
 RECURSIVE DigitsOf(_)
